@@ -55,7 +55,7 @@ def get_ref(case):
         return r
     ref = {}
     res = lcd.run_analysis(case, 1, -1, Chooser(seed=0), threshold=10 ** 9,
-                           max_steps=getattr(case, "ref_cap", REF_CAP), parent_cost=0.0, rtt=0.0, item_cost=0.0, fork_cost=0.0)
+                           max_steps=getattr(case, "ref_cap", REF_CAP), parent_cost=0.0, rtt=0.0, item_cost=0.0, fork_cost=0.0, syscall_cost=0.0)
     if res.harness:
         raise res.harness
     if res.out is not None and not res.aborted:
@@ -131,7 +131,7 @@ def execute(spec, chooser):
         max_steps=spec.get("max_steps", RUN_CAP), deadline_slack=slack,
         speeds=spec.get("speeds"), start_delays=spec.get("delays"),
         parent_cost=spec.get("parent_cost"), rtt=spec.get("rtt"), via_cli=spec.get("via_cli", False),
-        item_cost=spec.get("item_cost"), fork_cost=spec.get("fork_cost"))
+        item_cost=spec.get("item_cost"), fork_cost=spec.get("fork_cost"), syscall_cost=spec.get("syscall_cost"))
     return res
 
 
